@@ -306,6 +306,9 @@ pub struct Shape {
     pub sid: usize,
     pub cst: Option<Vec<u8>>,
     pub tys: Vec<Ty>,
+    /// `seeds()` ends with the empty bump placeholder (every derived impl; `false` only for the
+    /// hand-written impls that return just their real seeds)
+    pub placeholder: bool,
 }
 
 impl Shape {
@@ -346,7 +349,7 @@ macro_rules! seed_structs {
                     #[allow(unused_mut, unused_assignments)]
                     let mut cst: Option<Vec<u8>> = None;
                     $( cst = Some(AsRef::<[u8]>::as_ref($cst).to_vec()); )?
-                    Shape { sid: $sid, cst, tys: vec![$(<$t as FieldT>::ty()),*] }
+                    Shape { sid: $sid, cst, tys: vec![$(<$t as FieldT>::ty()),*], placeholder: true }
                 }
                 #[allow(unused_mut, unused_variables)]
                 fn from_vals(v: &[Val]) -> Option<Self> {
@@ -372,6 +375,9 @@ macro_rules! seed_structs {
                 $( $sid => Some(v.visit::<$name>()), )*
                 29 => Some(v.visit::<Pubkey>()),
                 30 => Some(v.visit::<u64>()),
+                52 => Some(v.visit::<ManualTrailingEmpty>()),
+                53 => Some(v.visit::<ManualNoSlot>()),
+                54 => Some(v.visit::<ManualWithSlot>()),
                 _ => None,
             }
         }
@@ -450,7 +456,7 @@ pub const RESPLIT_GROUPS: &[&[usize]] = &[&[44, 45, 46, 47], &[41, 42]];
 // `impl<T: Seed + Debug> GetSeeds for T` (`vec![self.seed(), &[]]`).
 impl SeedStructT for Pubkey {
     fn shape() -> Shape {
-        Shape { sid: 29, cst: None, tys: vec![Ty::Key] }
+        Shape { sid: 29, cst: None, tys: vec![Ty::Key], placeholder: true }
     }
     fn from_vals(v: &[Val]) -> Option<Self> {
         match v {
@@ -464,7 +470,7 @@ impl SeedStructT for Pubkey {
 }
 impl SeedStructT for u64 {
     fn shape() -> Shape {
-        Shape { sid: 30, cst: None, tys: vec![Ty::U(8)] }
+        Shape { sid: 30, cst: None, tys: vec![Ty::U(8)], placeholder: true }
     }
     fn from_vals(v: &[Val]) -> Option<Self> {
         match v {
@@ -477,10 +483,68 @@ impl SeedStructT for u64 {
     }
 }
 
+// sid 52..54: hand-written `impl GetSeeds`.
+// 52: no placeholder and the LAST REAL seed is empty (`without_bump_placeholder` pops a real seed);
+// 53: no placeholder, last seed non-empty (the bump is pushed);
+// 54: the impl shown in the trait documentation (constant, fields, placeholder).
+#[derive(Debug, Clone)]
+pub struct ManualTrailingEmpty {
+    pub a: u8,
+    pub b: [u8; 0],
+}
+impl GetSeeds for ManualTrailingEmpty {
+    fn seeds(&self) -> Vec<&[u8]> {
+        vec![self.a.seed(), self.b.seed()]
+    }
+}
+#[derive(Debug, Clone)]
+pub struct ManualNoSlot {
+    pub a: u64,
+}
+impl GetSeeds for ManualNoSlot {
+    fn seeds(&self) -> Vec<&[u8]> {
+        vec![self.a.seed()]
+    }
+}
+#[derive(Debug, Clone)]
+pub struct ManualWithSlot {
+    pub key: Pubkey,
+    pub number: u64,
+}
+impl GetSeeds for ManualWithSlot {
+    fn seeds(&self) -> Vec<&[u8]> {
+        vec![b"TEST_CONST", self.key.seed(), self.number.seed(), &[]]
+    }
+}
+macro_rules! manual_struct {
+    ($name:ident, $sid:literal, $cst:expr, $ph:literal, { $($f:ident : $t:ty),* }) => {
+        impl SeedStructT for $name {
+            fn shape() -> Shape {
+                Shape { sid: $sid, cst: $cst, tys: vec![$(<$t as FieldT>::ty()),*], placeholder: $ph }
+            }
+            fn from_vals(v: &[Val]) -> Option<Self> {
+                let mut it = v.iter();
+                let s = $name { $($f: <$t as FieldT>::from_val(it.next()?)?),* };
+                if it.next().is_some() { return None; }
+                Some(s)
+            }
+            fn to_vals(&self) -> Vec<Val> {
+                vec![$(self.$f.to_val()),*]
+            }
+        }
+    };
+}
+manual_struct!(ManualTrailingEmpty, 52, None, false, { a: u8, b: [u8; 0] });
+manual_struct!(ManualNoSlot, 53, None, false, { a: u64 });
+manual_struct!(ManualWithSlot, 54, Some(TEST_CONST.to_vec()), true, { key: Pubkey, number: u64 });
+
 pub fn all_shapes() -> Vec<Shape> {
     let mut v = derived_shapes();
     v.push(<Pubkey as SeedStructT>::shape());
     v.push(<u64 as SeedStructT>::shape());
+    v.push(<ManualTrailingEmpty as SeedStructT>::shape());
+    v.push(<ManualNoSlot as SeedStructT>::shape());
+    v.push(<ManualWithSlot as SeedStructT>::shape());
     v.sort_by_key(|s| s.sid);
     v
 }
